@@ -35,18 +35,21 @@ def _terms(kind, labels, ci, repeats, anchored, quad, offset, max_raw_len):
     return p
 
 
-def source(kinds, quad=False, offset=True, int_labels=False, max_raw_len=None, n_min=1):
+def source(kinds, quad=False, offset=True, int_labels=False, max_raw_len=None, n_min=1, order_pools=False):
     kinds = list(kinds)
+    if order_pools:
+        kinds = [k for k in kinds if not gen.is_matrix(k)] or kinds
     head = st.tuples(st.sampled_from(kinds), st.integers(0, 63), st.integers(n_min, 6),
                      st.integers(0, len(COEF_CLASSES) - 1), st.booleans(),
                      st.sampled_from([True, True, True, False]), st.sampled_from(["iadd", "dict"]), gen.CTYPE)
 
     def body(h):
         kind, pi, n, ci, repeats, anchored, ctor, ctype = h
-        pools = gen.INT_POOLS if (gen.is_matrix(kind) or int_labels) else gen.LABEL_POOLS + gen.INT_POOLS[:2]
+        pools = gen.INT_POOLS if (gen.is_matrix(kind) or int_labels) else (
+            gen.ORDER_POOLS if order_pools else gen.LABEL_POOLS + gen.INT_POOLS[:2])
         pi %= len(pools)
         labels = list(pools[pi][:n])
-        key = (kind, pi, n, ci, repeats, anchored, quad, offset, max_raw_len, int_labels)
+        key = (kind, pi, n, ci, repeats, anchored, quad, offset, max_raw_len, int_labels, order_pools)
         terms = _CACHE.get(key)
         if terms is None:
             terms = _CACHE[key] = _terms(kind, labels, ci, repeats, anchored, quad, offset, max_raw_len)
